@@ -61,6 +61,16 @@ def cases(tier, rng, extended=False):
             n = p * q
             algs = [a for a in selectors_for(n) if not (a == "pm1" and bits > 56)]
             yield from emit(n, algs, tag="41-64bit")
+    # 65..128-bit inputs with a small factor: the 128-bit ECM / Montgomery code on every top-word shape
+    for bits in list(range(65, 120, 5 if quick else 2)) + list(range(120, 129)):
+        for _ in range(2 if bits >= 120 else 1):
+            pb = rng.randint(24, 40)
+            n = gen.rand_prime(rng, pb) * gen.rand_prime(rng, bits - pb)
+            if n.bit_length() != bits:
+                n = gen.rand_prime(rng, pb) * gen.rand_prime(rng, bits - pb + 1)
+            yield from emit(n, ["auto", "ecm128", "ecm"], tag="65-128bit")
+    for d1, d2 in ((59, 83), (59, 59), (83, 95), (179, 189)):
+        yield from emit(((1 << 64) - d1) * ((1 << 64) - d2), ["auto", "ecm128"], tag="65-128bit", timeout=120)
     # word boundaries: keep only inputs that finish quickly (prime, or small factors times a prime)
     for base in (1 << 64, 1 << 128, (1 << 192) - 1, (1 << 256)):
         for d in range(-40, 41):
